@@ -30,6 +30,7 @@ class _Worker:
         self.pending = None          # description of the operation it is about to perform
         self.thread = None
         self.steps = 0
+        self.sleeps = 0
 
 
 class Scheduler:
@@ -38,7 +39,7 @@ class Scheduler:
     chooser(sched, runnable:list[int], current:int|None) -> int   picks the next thread.
     """
 
-    WATCHDOG_S = 60
+    WATCHDOG_S = 20
 
     def __init__(self, fns, chooser, root, is_yield_op=None, observer=None, pre_hook=None):
         self.workers = [_Worker(i, f) for i, f in enumerate(fns)]
@@ -56,6 +57,7 @@ class Scheduler:
         self.deadlock = None
         self.hang = None
         self.yield_points = 0
+        self.line_points = 0
         self.aborting = False
 
     # ------------------------------------------------------------------ worker side
@@ -101,6 +103,16 @@ class Scheduler:
             self.yield_point(op.describe(self.root))
         if self.pre_hook is not None:
             self.pre_hook(op)
+
+    def on_sleep(self, seconds):
+        """A sleeping thread (polling loop) gives the processor away: a free switching point, no real delay."""
+        w = self._me()
+        if w is None:
+            return probe.real("time.sleep")(seconds)
+        w.sleeps += 1
+        if w.sleeps > 20000:
+            raise Deadlock("a thread polled 20000 times without making progress")
+        self.yield_point("sleep")
 
     def post(self, op, error):
         if op.kind == "close-write" and op.fd is not None:
@@ -172,11 +184,12 @@ class Scheduler:
                     self.deadlock = {w.idx: (w.blocked_on[0] if w.blocked_on else w.state)
                                      for w in self.workers if w.state != "done"}
                     break
-                cur_ok = self.current in runnable
+                cur_ok = self.current in runnable and self.workers[self.current].pending != "sleep"
                 choice = self.chooser(self, runnable, self.current) if len(runnable) > 1 else runnable[0]
                 if choice not in runnable:
                     raise Inconclusive(f"chooser picked {choice} outside runnable {runnable}")
-                self.points.append((tuple(runnable), choice, self.current, cur_ok))
+                sleeping = self.current is not None and self.workers[self.current].pending == "sleep"
+                self.points.append((tuple(runnable), choice, self.current, cur_ok, sleeping))
                 self.trace.append(choice)
                 self.current = choice
                 w = self.workers[choice]
@@ -354,9 +367,11 @@ class PrefixChooser:
         step = len(sched.trace)
         if step < len(self.prefix) and self.prefix[step] in runnable:
             return self.prefix[step]
-        if current in runnable:
+        if current in runnable and sched.workers[current].pending != "sleep":
             return current
-        return runnable[0]
+        others = [t for t in runnable if t != current]
+        # a thread parked in sleep() gave the processor away voluntarily: round-robin to the next one
+        return min(others, key=lambda t: (t <= (current if current is not None else -1), t)) if others else runnable[0]
 
 
 class OrderChooser:
@@ -366,8 +381,11 @@ class OrderChooser:
         self.order = list(order)
 
     def __call__(self, sched, runnable, current):
-        if current in runnable:
+        if current in runnable and not (sched.workers[current].pending == "sleep" and len(runnable) > 1):
             return current
+        for t in self.order:
+            if t in runnable and t != current:
+                return t
         for t in self.order:
             if t in runnable:
                 return t
@@ -410,8 +428,10 @@ def dfs_prefixes(points, prefix_len, preemptions_used_at, bound):
     preemption bound."""
     out = []
     used = 0
-    for i, (runnable, chosen, current, cur_ok) in enumerate(points):
-        if i >= prefix_len and len(runnable) > 1:
+    for i, (runnable, chosen, current, cur_ok, sleeping) in enumerate(points):
+        # no branching where the current thread sits in sleep(): it yields voluntarily and the round-robin
+        # successor is the only sensible continuation (branching there would enumerate spin counts)
+        if i >= prefix_len and len(runnable) > 1 and not sleeping:
             for alt in runnable:
                 if alt == chosen:
                     continue
@@ -428,4 +448,76 @@ def i_prefix(points, i, alt):
 
 
 def preemptions(points):
-    return sum(1 for (_r, chosen, current, cur_ok) in points if cur_ok and chosen != current)
+    return sum(1 for (_r, chosen, current, cur_ok, _s) in points if cur_ok and chosen != current)
+
+
+# ---------------------------------------------------------------------- line-level yield points (thorough tiers)
+
+class LineYield:
+    """sys.monitoring LINE events inside the code under test become additional yield points of the controlled
+    threads, so that a schedule can preempt between ANY two statements of filehashstore.py - not only at
+    file-system calls and lock operations. This reaches races on in-memory state (a check-then-act on a locked
+    list done outside its condition, an unprotected cache) that the default yield points cannot separate.
+    Far too many points for systematic search: used with random / PCT choosers only."""
+
+    TOOL = 4
+    _codes = None
+    _active = None
+
+    @classmethod
+    def _collect(cls):
+        import types
+        from .common import load_repo
+        mod = load_repo()["fhs"]
+        seen, out = set(), []
+
+        def walk(code):
+            if code in seen:
+                return
+            seen.add(code)
+            out.append(code)
+            for c in code.co_consts:
+                if isinstance(c, types.CodeType):
+                    walk(c)
+        for obj in vars(mod).values():
+            if isinstance(obj, type) and obj.__module__ == mod.__name__:
+                for v in vars(obj).values():
+                    f = getattr(v, "__func__", v)
+                    if isinstance(f, types.FunctionType):
+                        walk(f.__code__)
+            elif isinstance(obj, types.FunctionType) and obj.__module__ == mod.__name__:
+                walk(obj.__code__)
+        cls._codes = out
+        return out
+
+    @classmethod
+    def enable(cls, scheduler):
+        import sys
+        mon = sys.monitoring
+        codes = cls._codes or cls._collect()
+        if mon.get_tool(cls.TOOL) is None:
+            mon.use_tool_id(cls.TOOL, "hsverif-line-yield")
+            mon.register_callback(cls.TOOL, mon.events.LINE, cls._on_line)
+        cls._active = scheduler
+        for c in codes:
+            mon.set_local_events(cls.TOOL, c, mon.events.LINE)
+
+    @classmethod
+    def disable(cls):
+        import sys
+        mon = sys.monitoring
+        cls._active = None
+        if mon.get_tool(cls.TOOL) is not None:
+            for c in cls._codes or ():
+                mon.set_local_events(cls.TOOL, c, 0)
+
+    @staticmethod
+    def _on_line(code, line):
+        s = LineYield._active
+        if s is None or s.aborting:
+            return
+        w = getattr(_cur, "worker", None)
+        if w is None or getattr(probe._tls, "busy", 0):
+            return
+        s.line_points += 1
+        s.yield_point(f"line:{code.co_name}:{line}")
